@@ -5,6 +5,9 @@ import CopVerif.Real.Inst
   `α` (so they also read at `Float` under the stated order hypotheses); part D specialises the
   ranking to `ℝ`.
 -/
+set_option linter.unusedSectionVars false
+set_option linter.unusedSimpArgs false
+set_option linter.unusedVariables false
 namespace CopVerif.Lemmas.SelectCopula
 open CopVerif CopVerif.Model CopVerif.Model.SelectCopula
 
@@ -44,5 +47,130 @@ theorem stepEmp_eq (k : Nat) (b left right : α) (st : Emp α)
        · simp [hr] at h)
     | simp [hl, hr, hrr, Emp.app]
 
+/-- the right guard is antitone along the list: once it fails it fails for every later element. -/
+def GuardAntitone (rightOf : α → α) (bs : List α) : Prop :=
+  bs.Pairwise fun a b => Gen.SelectCopula.rightGuard (rightOf b) = true →
+    Gen.SelectCopula.rightGuard (rightOf a) = true
+
+/-- The loop started at index `k` in state `st` equals "append the index-free specification",
+    provided `z_right` holds exactly `k` elements or nothing more will be appended to it. -/
+theorem loopEmp_eq (leftOf rightOf : α → α) :
+    ∀ (bs : List α) (k : Nat) (st : Emp α), GuardAntitone rightOf bs →
+      (st.zRight.length = k ∨ ∀ b ∈ bs, Gen.SelectCopula.rightGuard (rightOf b) = false) →
+      loopEmp leftOf rightOf bs k st = .ok (Emp.app st (empSpec leftOf rightOf bs)) := by
+  intro bs
+  induction bs with
+  | nil => intro k st _ _; simp [loopEmp, Emp.app_empty]
+  | cons b bs ih =>
+    intro k st hp hk
+    unfold GuardAntitone at hp
+    rw [List.pairwise_cons] at hp
+    obtain ⟨hb, hp'⟩ := hp
+    have hstep := stepEmp_eq k b (leftOf b) (rightOf b) st (by
+      rcases hk with hk | hk
+      · exact Or.inl hk
+      · exact Or.inr (hk b (by simp)))
+    unfold loopEmp
+    rw [hstep]
+    simp only []
+    rw [ih (k + 1) _ hp']
+    · congr 1
+      cases st with
+      | mk zl L zr R =>
+      by_cases hl : Gen.SelectCopula.leftGuard (leftOf b) = true <;>
+      by_cases hr : Gen.SelectCopula.rightGuard (rightOf b) = true <;>
+      simp [Emp.app, empSpec, List.filter_cons, hl, hr]
+    · by_cases hr : Gen.SelectCopula.rightGuard (rightOf b) = true
+      · rcases hk with hk | hk
+        · left; simp [Emp.app, hr, hk]
+        · have := hk b (by simp); simp [hr] at this
+      · right
+        intro b' hb'
+        by_cases hr' : Gen.SelectCopula.rightGuard (rightOf b') = true
+        · exact absurd (hb b' hb' hr') hr
+        · simpa using hr'
+
+/-- `_compute_empirical` never raises on a non-empty data set and a long enough grid along which the
+    right guard is antitone, and its result is the index-free specification: in particular the
+    value read as `z_right[k]` is `base[k]`. -/
+theorem computeEmpirical_eq (base : List α) (data : List (α × α))
+    (hlen : Gen.SelectCopula.steps ≤ base.length) (hdata : data ≠ [])
+    (hanti : GuardAntitone (fun b => Gen.SelectCopula.ratio (countRight data b) data.length)
+      (base.take Gen.SelectCopula.steps)) :
+    computeEmpirical base data = .ok (empSpec
+      (fun b => Gen.SelectCopula.ratio (countLeft data b) data.length)
+      (fun b => Gen.SelectCopula.ratio (countRight data b) data.length)
+      (base.take Gen.SelectCopula.steps)) := by
+  unfold computeEmpirical
+  have h1 : ¬ base.length < Gen.SelectCopula.steps := by omega
+  have h2 : ¬ (data.length = 0 ∧ 0 < Gen.SelectCopula.steps) := by
+    intro h; exact hdata (List.length_eq_zero_iff.mp h.1)
+  simp only [h1, h2, if_false]
+  rw [loopEmp_eq _ _ _ 0 Emp.empty hanti (Or.inl rfl), Emp.empty_app]
+
+/-- `N = 0`: `0 / 0` on Python ints (not reachable through `select_copula`: `Frank.fit` raises first). -/
+theorem computeEmpirical_nil (base : List α) (hlen : Gen.SelectCopula.steps ≤ base.length) :
+    computeEmpirical base ([] : List (α × α)) = .error .other := by
+  unfold computeEmpirical
+  have h1 : ¬ base.length < Gen.SelectCopula.steps := by omega
+  simp [h1, Gen.SelectCopula.steps]
+
+/-- What the index-safety argument needs from the carrier: `≤` is transitive, `<` implies `≤`, and the
+    test `right > 0` on `count / N` is monotone in the count (at `ℝ`: `N > 0`; at binary64:
+    `count / N ≥ 2⁻⁵³` never underflows). -/
+structure OrderHyps (α : Type) [Div α] [LT α] [LE α] [DecidableLT α] [NumFns α] : Prop where
+  le_trans : ∀ a b c : α, a ≤ b → b ≤ c → a ≤ c
+  le_of_lt : ∀ a b : α, a < b → a ≤ b
+  guard_mono : ∀ c c' n : Nat, c' ≤ c →
+    Gen.SelectCopula.rightGuard (Gen.SelectCopula.ratio c' n : α) = true →
+    Gen.SelectCopula.rightGuard (Gen.SelectCopula.ratio c n : α) = true
+
+/-- the right-tail count is non-increasing along an increasing grid. -/
+theorem countRight_antitone (H : OrderHyps α) (data : List (α × α)) {b b' : α} (h : b ≤ b') :
+    countRight data b' ≤ countRight data b := by
+  unfold countRight
+  apply List.countP_mono_left
+  intro p _ hp
+  simp only [Gen.SelectCopula.rightPred, Bool.and_eq_true, decide_eq_true_eq] at hp ⊢
+  exact ⟨H.le_trans _ _ _ h hp.1, H.le_trans _ _ _ h hp.2⟩
+
+theorem guardAntitone_of_increasing (H : OrderHyps α) (data : List (α × α)) (bs : List α)
+    (hinc : bs.Pairwise (· < ·)) :
+    GuardAntitone (fun b => Gen.SelectCopula.ratio (countRight data b) data.length) bs := by
+  unfold GuardAntitone
+  refine hinc.imp ?_
+  intro a b hab hg
+  exact H.guard_mono _ _ _ (countRight_antitone H data (H.le_of_lt _ _ hab)) hg
+
+/-- **Index safety**, carrier-generic form. -/
+theorem computeEmpirical_safe (H : OrderHyps α) (base : List α) (data : List (α × α))
+    (hlen : Gen.SelectCopula.steps ≤ base.length) (hdata : data ≠ [])
+    (hinc : base.Pairwise (· < ·)) :
+    computeEmpirical base data = .ok (empSpec
+      (fun b => Gen.SelectCopula.ratio (countLeft data b) data.length)
+      (fun b => Gen.SelectCopula.ratio (countRight data b) data.length)
+      (base.take Gen.SelectCopula.steps)) :=
+  computeEmpirical_eq base data hlen hdata
+    (guardAntitone_of_increasing H data _ (hinc.sublist (List.take_sublist _ _)))
+
 end Generic
+
+/-- the hypotheses hold at `ℝ`. -/
+theorem orderHyps_real : OrderHyps ℝ where
+  le_trans := fun _ _ _ => le_trans
+  le_of_lt := fun _ _ => le_of_lt
+  guard_mono := by
+    intro c c' n hcc h
+    simp only [Gen.SelectCopula.rightGuard, Gen.SelectCopula.ratio, ofNat_real, decide_eq_true_eq,
+      Nat.cast_zero] at h ⊢
+    have hn : (0 : ℝ) < n := by
+      rcases Nat.eq_zero_or_pos n with hn | hn
+      · subst hn; simp at h
+      · exact_mod_cast hn
+    have hc' : (0 : ℝ) < c' := by
+      by_contra hneg
+      have : (c' : ℝ) / n ≤ 0 := div_nonpos_of_nonpos_of_nonneg (not_lt.mp hneg) hn.le
+      linarith
+    have hc : (0 : ℝ) < c := lt_of_lt_of_le hc' (by exact_mod_cast hcc)
+    exact div_pos hc hn
 end CopVerif.Lemmas.SelectCopula
